@@ -427,6 +427,7 @@ def engine_E(name, kinds, sizes, lin_sizes, seed, wd_name=None):
             for pat in ("asc", "desc", "const", "rand"):
                 g = {"n": n, "pattern": pat, "seed": seed}
                 steps = [{"op": "from_vec", "q": 0, "gen": g},
+                         {"op": "retain_mut", "rw": "neg"}, {"op": "retain_mut", "rw": "idx"}, {"op": "retain_mut", "rw": "nidx"},
                          {"op": "retain", "keepmod": 7}, {"op": "retain_mut", "keepmod": 2},
                          {"op": "iter_mut", "n": 0}, {"op": "iter_mut", "n": 3},
                          {"op": "convert"}, {"op": "convert"},
